@@ -121,10 +121,10 @@ def truth(st: State, v: Any):
         m = META[v.oid]
         if m.kind == "bytebuf":
             return L(st.get(v, "data")) != 0
-        if m.kind == "list":
-            return z3.BoolVal(len(st.get(v, "items")) != 0)
         if st.has(v, "$len"):
             return st.get(v, "$len") != 0
+        if m.kind == "list":
+            return z3.BoolVal(len(st.get(v, "items")) != 0)
         return z3.BoolVal(True)
     if isinstance(v, (tuple, list, str, dict)):
         return z3.BoolVal(len(v) != 0)
@@ -262,10 +262,10 @@ def length(st: State, v: Any):
         m = META[v.oid]
         if m.kind == "bytebuf":
             return L(st.get(v, "data"))
-        if m.kind == "list":
-            return z3.IntVal(len(st.get(v, "items")))
         if st.has(v, "$len"):
             return st.get(v, "$len")
+        if m.kind == "list":
+            return z3.IntVal(len(st.get(v, "items")))
     if isinstance(v, (tuple, str)):
         return z3.IntVal(len(v))
     raise EngineError(f"len of {v!r}")
